@@ -132,6 +132,7 @@ def attach(ep, clock=None, role=None, sink=None):
     ep.vf_reader = MemReader(ep.vf_name + ".reader")
     ep.vf_tap = getattr(ep, "vf_tap", None) or Tap(clock, ep.vf_name)
     ep.vf_writer = MemWriter(ep.vf_tap, sink, ep.vf_name + ".writer")
+    ep.vf_writer.on_close = ep.vf_reader.feed_eof     # closing the transport ends the stream for its own reader too (connection_lost)
     ep._socket_reader = ep.vf_reader
     ep._socket_writer = ep.vf_writer
     ep._connection_state = ConnectionState.NETWORK_CONN_ESTABLISHED
